@@ -1964,6 +1964,9 @@ def probes_for(pid):
     # statement-level rewrites: the call evaluated first kept in a temporary, `a, b = f()` via a kept tuple, conjunctive asserts split
     for kind in ("hoist-call", "split-unpack", "split-assert", "inline-local", "swap-independent", "dedent-else", "nest-after-return", "extract-tail"):
         out.append({"pid": pid, "name": "probe:" + kind, "probe": ("statements", kind), "expect": None})
+    # signature rewrites: the parameters of every internal method (unique name, only ever called) rotated / renamed with all call sites
+    for kind in ("reorder-params", "rename-params"):
+        out.append({"pid": pid, "name": "probe:" + kind, "probe": ("signatures", kind), "expect": None})
     for p in probes.source_files(REPO):
         rel = os.path.relpath(p, REPO)
         if rel.endswith("__init__.py") or "plot" in rel:
@@ -1988,6 +1991,9 @@ def _run_probe(m, base_known):
                 return m["name"], "silent", "nothing to rewrite"
         elif kind == "statements":
             if probes.rewrite_statements(tmp, rel) == 0:
+                return m["name"], "silent", "nothing to rewrite"
+        elif kind == "signatures":
+            if probes.rewrite_signatures(tmp, rel) == 0:
                 return m["name"], "silent", "nothing to rewrite"
         else:
             if probes.rename_file(tmp, rel) == 0:
